@@ -53,12 +53,14 @@
                          per channel (a), (b), (c).  A candidate of kind (b)/(c)
                          that cannot take that many positional arguments is passed
                          over; the first remaining one is the PICK.  If the pick can
-                         be called with the arguments it runs, nothing else.  If it
-                         cannot (too few segments, a parameter it does not know,
-                         a parameter given twice) the documentation is silent:
-                         an error answer without any handler run, or a later
-                         candidate that can be called, are both accepted
-     not_routed          pick callable => something runs
+                         be called with the arguments (and the segments alone, or
+                         with no segments the parameters alone, fill what has no
+                         default) it runs, nothing else.  If it cannot (too few
+                         segments, a parameter it does not know, a parameter given
+                         twice) the documentation is silent: an error answer
+                         without any handler run, or a later candidate that can
+                         be called, are both accepted
+     not_routed          pick callable in that sense => something runs
      unroutable_not_404  no pick => 404, nothing runs
      ok_without_handler  nothing ran => not a 200
      ran_but_error       a handler ran (they all return text) => 200
@@ -145,6 +147,13 @@ Cands(C, reg, rq) == CandsFrom(C, reg, rq.m, rq.segs, Len(rq.segs))
 HOf(C, cd) == C.ctrls[cd.c].hs[cd.j]
 PassedOver(C, cd) == cd.via # "method" /\ ~HOf(C, cd).var /\ Len(cd.args) > HOf(C, cd).na
 CBinds(C, cd, rq) == Binds(HOf(C, cd), Len(cd.args), KeySet(rq))
+(* the call is one the documentation shows: the segments alone fill every
+   parameter without a default (or there are no segments at all and the
+   request parameters do: /query?test=1).  Segments for some of the required
+   parameters and request parameters for the rest is a mixture the
+   documentation never shows: whether such a candidate is taken is left open  *)
+Firm(C, cd, rq) == /\ CBinds(C, cd, rq)
+                   /\ (Len(cd.args) = 0 \/ Len(cd.args) >= HOf(C, cd).na - HOf(C, cd).nd)
 (* index of the pick in the candidate sequence, 0 if there is none *)
 Pick(C, cands) ==
   LET ok == {i \in 1..Len(cands) : ~PassedOver(C, cands[i])}
@@ -173,7 +182,7 @@ Fail(C, P, ln) ==
               IN IF named = {} THEN "X01.wrong_handler"
                  ELSE IF mt = {} THEN "X01.args_not_segments"
                  ELSE IF pk \in mt THEN ""
-                 ELSE IF CBinds(C, cands[pk], rq) THEN "X01.priority"   \* mt # {} => pk # 0
+                 ELSE IF Firm(C, cands[pk], rq) THEN "X01.priority"   \* mt # {} => pk # 0
                  ELSE ""
     [] ln.k = "resp" ->
          IF P.cur = 0 THEN "X01.resp_outside_request"
@@ -185,7 +194,7 @@ Fail(C, P, ln) ==
                   pk    == P.pick
               IN IF ~rq.canon THEN ""
                  ELSE IF pk = 0 THEN (IF ln.st # 404 THEN "X01.unroutable_not_404" ELSE "")
-                 ELSE IF CBinds(C, cands[pk], rq) THEN "X01.not_routed"
+                 ELSE IF Firm(C, cands[pk], rq) THEN "X01.not_routed"
                  ELSE ""
     [] OTHER -> ""
 
